@@ -223,6 +223,7 @@ var owned = map[string][]string{
 	"C04": {"r", "T", "TM", "now"},
 	"C07": {"r", "L", "T", "F", "TM", "P"},
 	"C08": {"L", "T", "F"},
+	"C09": {"L", "F"},
 	"C10": {"r", "L", "T", "F", "TM"},
 	"C12": {"r"},
 	"C13": {"r", "T", "LA"},
@@ -301,6 +302,9 @@ func profileFor(prop string) Profile {
 		p.Ops = 60
 		p.Restart = 1
 		p.Foreign = 10
+	case "C09":
+		p.Restart = 10
+		p.FixedCfg = nil
 	case "C10":
 		p.Restart = 8
 	case "C03":
